@@ -363,6 +363,14 @@ fn c04(cx: &Ctx, o: &mut Outcome) {
                     }
                 }
             }
+        } else if sc_conn.client == ClientMode::Normal && f.is_clean() && !sc_conn.request.0.is_empty() && r.panics.iter().all(|p| p.conn != Some(i)) {
+            // the request arrived in several segments and nothing else went wrong: whatever
+            // prefix the server acted on, it owes exactly one complete response
+            if c.read_calls > 0 || r.end == End::Completed {
+                if let Err(why) = cx.complete(i) {
+                    o.verdicts.push(v("C04", if c.outbound.is_empty() { "no_response.segmented_request" } else { "incomplete_response.segmented_request" }, format!("request {:?} delivered in {} segments: {}", escape_trunc(&sc_conn.request.0, 100), sc_conn.delivery.len(), why), Some(i)));
+                }
+            }
         } else if let Some(k) = r.panics.iter().position(|p| p.conn == Some(i)) {
             // relaxed regime: whatever the transport did, no panic
             if !cited.contains(&k) {
@@ -433,6 +441,11 @@ fn normalise_echo(bytes: &[u8]) -> Vec<u8> {
         return out;
     }
     n
+}
+
+/// form echo pages list their fields in hash-map order: prefix comparisons do not apply
+fn is_form_echo(target: &str) -> bool {
+    target.starts_with("/form-") || target.starts_with("/file-upload")
 }
 
 fn wellformed_verdicts(cx: &Ctx, i: usize, o: &mut Outcome) {
@@ -509,7 +522,31 @@ fn c05(cx: &Ctx, o: &mut Outcome) {
     for i in cx.scripted() {
         let sc_conn = &cx.sc.conns[i];
         let c = &r.conns[i];
-        if !sc_conn.strict_delivery() || !sc_conn.faults.only_cuts() {
+        // write faults: what arrived is a prefix of the response, all of it after a lone EINTR
+        if sc_conn.strict_delivery() && !sc_conn.faults.only_cuts() {
+            let mut f = sc_conn.faults.clone();
+            let (wf, wz) = (f.write_fault.take(), f.write_zero_at.take());
+            f.cuts = Cuts::None;
+            if f.is_clean() && (wf.is_some() || wz.is_some()) {
+                if let Some(t) = sc_conn.twin {
+                    if t < r.conns.len() && !r.conns[t].outbound.is_empty() && cx.sc.conns[t].request == sc_conn.request && cx.sc.conns[t].faults.is_clean() {
+                        o.evaluated = true;
+                        let full = normalise(&r.conns[t].outbound);
+                        let got = normalise(&c.outbound);
+                        let fired_fault = c.fired.iter().any(|x| x.starts_with("write_err") || x.starts_with("write_zero"));
+                        if !full.starts_with(&got) && !is_form_echo(&cx.reqs[i].target) {
+                            o.verdicts.push(v("C05", "write_fault.not_a_prefix_of_the_response", format!("request {:?}: after {:?} the peer holds {} bytes that are not a prefix of the {}-byte response (write calls: {:?})", escape_trunc(&sc_conn.request.0, 80), c.fired, got.len(), full.len(), c.writes.iter().map(|w| (w.len, w.ret)).take(8).collect::<Vec<_>>()), Some(i)));
+                        }
+                        let only_eintr = wz.is_none() && wf.as_ref().map(|w| w.kind == IoKind::Interrupted && !w.sticky).unwrap_or(false);
+                        if only_eintr && fired_fault && normalise_echo(&full) != normalise_echo(&got) && got.len() < full.len() {
+                            o.verdicts.push(v("C05", "write_fault.response_cut_by_eintr", format!("request {:?}: one write call was interrupted (EINTR) at byte {} and the peer received only {} of {} bytes", escape_trunc(&sc_conn.request.0, 80), wf.as_ref().map(|w| w.at).unwrap_or(0), got.len(), full.len()), Some(i)));
+                        }
+                    }
+                }
+            }
+            continue;
+        }
+        if !sc_conn.strict_delivery() {
             continue;
         }
         if c.outbound.is_empty() {
